@@ -39,6 +39,9 @@ typedef struct lltd_iface_state {
 
 static lltd_iface_state *g_iface_states = NULL;
 
+/* upper bound on recorded Probe/Train observations per interface */
+#define LLTD_SEE_LIST_MAX 1024u
+
 #define log_debug(...) lltd_port_log_debug(__VA_ARGS__)
 #define log_warning(...) lltd_port_log_warning(__VA_ARGS__)
 #define log_err(...) lltd_port_log_warning(__VA_ARGS__)
@@ -517,6 +520,12 @@ static void parseProbe(void *inFrame, lltd_iface_state *st, void *iface_ctx) {
 
     bool forUs = compareEthernetAddress(&header->realDestination, &our_mac);
     if (!forUs) {
+        return;
+    }
+
+    /* Any station on the segment can make us record observations: keep the
+     * record bounded. A mapper drains it with Query long before this. */
+    if (st->see_list_count >= LLTD_SEE_LIST_MAX) {
         return;
     }
 
